@@ -4,7 +4,7 @@ from __future__ import annotations
 import copy
 from fractions import Fraction
 
-from .. import gen1
+from .. import gen1, gennd
 from ..core import rs
 from .base1 import Hist1Prop
 from .c14 import dy_bins
@@ -37,6 +37,11 @@ class C06(Hist1Prop):
     FIELDS = {"bins", "freq", "err2", "under", "over", "inner", "total", "dtype", "stats", "keep"}
 
     def gen_case(self, rng, k, tier):
+        r = k % 10
+        if r == 7:
+            return self.gen_collection(rng)
+        if r in (8, 9):
+            return self.gen_nd(rng)
         exact = rng.random() < 0.7
         pairs = dy_bins(rng)
         b = gen1.binning_json(pairs, rng=rng, form="pairs")
@@ -70,6 +75,207 @@ class C06(Hist1Prop):
                           "neg_mul", "neg_div", "zero_div", "neg_imul"])
         src = {"init": init, "steps": steps, "bad": bad, "exact": exact}
         return self.build(src)
+
+    def diff(self, case, model_ok, io):
+        d = super().diff(case, model_ok, io)
+        if "zero_bin" in case.get("tags", []):
+            # a bin that is empty in every member divides by zero: numpy yields NaN / inf there (physt's docstring says
+            # so), the rational model 0; those entries, and totals containing them, are not compared
+            d = [x for x in d if not ("impl=None" in x or "impl='inf'" in x or "impl='-inf'" in x or ".total" in x)]
+        return d
+
+    # ------------------------------------------------------------------ collection.normalize_bins
+    def gen_collection(self, rng):
+        pairs = dy_bins(rng)
+        nb = len(pairs)
+        b = gen1.binning_json(pairs, rng=rng, form="pairs")
+        m = rng.choice([1, 2, 3, 3])
+        ops = []
+        zero_bin = rng.random() < 0.15
+        for j in range(m):
+            dt = rng.choice(["int64", "int32", "float64", "float32", "int64"])
+            isint = dt.startswith("int")
+            f = [rng.randint(0 if j else 1, 12) if isint else rng.randint(0 if j else 1, 48) / 4 for _ in range(nb)]
+            if zero_bin:
+                f[0] = 0 if isint else 0.0
+            e = None if rng.random() < 0.5 else [rng.randint(0, 20) if isint else rng.randint(0, 80) / 4 for _ in range(nb)]
+            ops.append({"op": "of_arrays", "out": j, "binning": b, "freq": [rs(x) for x in f],
+                        "err2": None if e is None else [rs(x) for x in e], "under": rs(rng.randint(0, 3)),
+                        "over": rs(rng.randint(0, 3)), "inner": "0", "dtype": dt, "keep": True})
+        ops.append({"op": "normalize_bins", "hs": list(range(m)), "outs": list(range(m, 2 * m))})
+        tags = ["collection", f"members:{m}"] + (["zero_bin"] if zero_bin else [])
+        if rng.random() < 0.25:
+            other = gen1.binning_json([[100.0 + 3 * i, 101.5 + 3 * i] for i in range(nb + 2)], form="pairs")
+            ops.append({"op": "of_arrays", "out": 2 * m, "binning": other, "freq": ["1"] * (nb + 2), "err2": None,
+                        "under": "0", "over": "0", "inner": "0", "dtype": "int64", "keep": True})
+            ops.append({"op": "normalize_bins", "hs": [0, 2 * m], "outs": [2 * m + 1, 2 * m + 2], "expect_refused": True})
+            tags.append("bad:other_bins")
+        return {"kind": "hist1", "ops": ops, "tags": tags, "tolerance": True, "sub": "collection", "m": m}
+
+    def oracle_collection(self, case, io):
+        outs, ops, m = io["outs"], case["ops"], case["m"]
+        fails = []
+        k = m   # index of the normalize_bins op
+        if outs[k]["ret"] != "ok":
+            return ["refused_valid: normalize_bins refused: " + "; ".join(io["log"][:2])]
+        regs = outs[k]["regs"]
+        src, dst = regs[:m], regs[m:2 * m]
+        if outs[k - 1]["regs"][:m] != src:
+            fails.append("operand_modified: normalize_bins(inplace=False) modified the members")
+        nb = len(src[0]["freq"])
+        for i in range(nb):
+            tot = sum(Fraction(h["freq"][i]) for h in src)
+            if tot == 0:
+                continue
+            shares = [Fraction(h["freq"][i]) for h in dst]
+            if abs(sum(shares) - 1) > Fraction(1, 10**6):
+                fails.append(f"shares_sum: bin {i}: the members' shares {[float(x) for x in shares]} do not sum to 1")
+                break
+            for h0, h1 in zip(src, dst):
+                if abs(Fraction(h1["freq"][i]) - Fraction(h0["freq"][i]) / tot) > Fraction(1, 10**6):
+                    fails.append(f"share_value: bin {i}: content {h0['freq'][i]} of sum {tot} became {h1['freq'][i]}")
+                    break
+                want = Fraction(h0["err2"][i]) / (tot * tot)
+                if abs(Fraction(h1["err2"][i]) - want) > Fraction(1, 10**6) * max(abs(want), 1):
+                    fails.append(f"share_err2: bin {i}: squared error {h0['err2'][i]} became {h1['err2'][i]}, expected {float(want)}")
+                    break
+        for h0, h1 in zip(src, dst):
+            if h0["bins"] != h1["bins"]:
+                fails.append("bins_changed: normalize_bins changed the bins")
+            if not h1["dtype"].startswith("float"):
+                fails.append(f"dtype: member of dtype {h0['dtype']} stayed {h1['dtype']} after division")
+        for j, op in enumerate(ops):
+            if op.get("expect_refused") and outs[j]["ret"] != "REFUSED":
+                fails.append("accepted_invalid: a collection of members with different bins was accepted")
+        return fails[:6]
+
+    # ------------------------------------------------------------------ ND scaling / normalize / partial_normalize
+    def gen_nd(self, rng):
+        d = rng.choice([2, 2, 2, 3])
+        axes = [gennd.axis_binning(rng, maxbins=3, allow_fixed=False) for _ in range(d)]
+        shape = [len(a[1]) for a in axes]
+        n = 1
+        for x in shape:
+            n *= x
+        dt = rng.choice(["int64", "float64", "int32", "float32"])
+        isint = dt.startswith("int")
+        f = [rng.randint(0, 12) if isint else rng.randint(0, 48) / 4 for _ in range(n)]
+        if rng.random() < 0.3 and d == 2:
+            for j in range(shape[1]):      # an empty row: partial_normalize must leave it alone
+                f[j] = 0 if isint else 0.0
+        e = None if rng.random() < 0.5 else [rng.randint(0, 20) if isint else rng.randint(0, 80) / 4 for _ in range(n)]
+        ops = [{"op": "of_arrays", "out": 0, "axes": [a[0] for a in axes], "freq": [rs(x) for x in f],
+                "err2": None if e is None else [rs(x) for x in e], "missed": rs(rng.randint(0, 5)), "dtype": dt,
+                "keep": rng.random() < 0.85, "names": [f"ax{i}" for i in range(d)]}]
+        cur, nxt = 0, 1
+        for _ in range(rng.randint(1, 3)):
+            t = rng.choice(["mul", "rmul", "imul", "div", "idiv", "normalize", "partial", "partial"] if d == 2 else
+                           ["mul", "rmul", "imul", "div", "idiv", "normalize"])
+            if t in ("mul", "rmul", "div"):
+                c, kd = pick_scalar(rng, True, divide=t == "div")
+                ops.append({"op": "div" if t == "div" else "mul", "h": cur, "c": c, "k": kd, "out": nxt, "reflected": t == "rmul"})
+                cur, nxt = nxt, nxt + 1
+            elif t in ("imul", "idiv"):
+                c, kd = pick_scalar(rng, True, divide=t == "idiv")
+                ops.append({"op": t, "h": cur, "c": c, "k": kd})
+            elif t == "normalize":
+                inplace = rng.random() < 0.4
+                op = {"op": "normalize", "h": cur, "percent": rng.random() < 0.4, "inplace": inplace}
+                if not inplace:
+                    op["out"] = nxt; cur_new = nxt; nxt += 1
+                ops.append(op)
+                if not inplace:
+                    cur = cur_new
+            else:
+                inplace = rng.random() < 0.4
+                ax = rng.choice([0, 1, "ax0", "ax1"])
+                op = {"op": "partial_normalize", "h": cur, "axis": ax, "inplace": inplace}
+                if not inplace:
+                    op["out"] = nxt; cur_new = nxt; nxt += 1
+                ops.append(op)
+                if not inplace:
+                    cur = cur_new
+        bad = rng.choice(["neg_mul", "zero_div", "none", "none"])
+        if bad == "neg_mul":
+            ops.append({"op": "mul", "h": 0, "c": "-2", "k": "pyint", "out": nxt, "expect_refused": True})
+        elif bad == "zero_div":
+            ops.append({"op": "idiv", "h": cur, "c": "0", "k": "pyint", "expect_refused": True})
+        return {"kind": "histn", "ops": ops, "tags": ["nd", f"d:{d}", "bad:" + bad], "tolerance": True, "sub": "nd"}
+
+    def oracle_nd(self, case, io):
+        outs, ops = io["outs"], case["ops"]
+        fails = []
+        if outs[0]["ret"] == "REFUSED":
+            return ["refused_valid: setup refused: " + "; ".join(io["log"][:2])]
+        T = Fraction(1, 10**6)
+
+        def close(a, b):
+            return abs(a - b) <= T * max(abs(a), abs(b), 1)
+
+        for k, op in enumerate(ops):
+            if k == 0:
+                continue
+            before, after = outs[k - 1]["regs"], outs[k]["regs"]
+            if op["h"] >= len(before) or before[op["h"]] is None:
+                return fails[:6]
+            src = before[op["h"]]
+            ret = outs[k]["ret"]
+            if op.get("expect_refused"):
+                nonzero = any(Fraction(x) != 0 for x in src["freq"])
+                if ret != "REFUSED" and (op["c"] == "0" or nonzero):
+                    fails.append(f"accepted_invalid: {op['op']} by {op['c']} was accepted")
+                continue
+            if ret == "REFUSED":
+                if op["op"] == "normalize" and Fraction(src["total"]) == 0:
+                    return fails[:6]
+                fails.append(f"refused_valid: {op['op']} refused: " + "; ".join(io["log"][:2]))
+                return fails[:6]
+            inplace = op["op"] in ("imul", "idiv") or op.get("inplace")
+            dst = after[op["h"]] if inplace else after[op["out"]]
+            if not inplace and after[op["h"]] != src:
+                fails.append(f"operand_modified: {op['op']} modified its operand")
+            if dst["bins"] != src["bins"] or dst["names"] != src["names"]:
+                fails.append(f"bins_changed: {op['op']} changed bins or axis names")
+            F0 = [Fraction(x) for x in src["freq"]]; E0 = [Fraction(x) for x in src["err2"]]
+            F1 = [Fraction(x) for x in dst["freq"]]; E1 = [Fraction(x) for x in dst["err2"]]
+            if op["op"] in ("mul", "imul", "div", "idiv"):
+                c = Fraction(op["c"]); g = c if op["op"] in ("mul", "imul") else 1 / c
+                if not all(close(x * g, y) for x, y in zip(F0, F1)):
+                    fails.append(f"scale_content: ND {op['op']} by {op['c']}: contents {src['freq']} became {dst['freq']}")
+                if not all(close(x * g * g, y) for x, y in zip(E0, E1)):
+                    fails.append(f"scale_err2: ND {op['op']} by {op['c']}: squared errors {src['err2']} became {dst['err2']}")
+                if src["missed"] is not None and dst["missed"] is not None and not close(Fraction(src["missed"]) * g, Fraction(dst["missed"])):
+                    fails.append(f"scale_missed: ND {op['op']} by {op['c']}: missed {src['missed']} became {dst['missed']}")
+            elif op["op"] == "normalize":
+                want = 100 if op.get("percent") else 1
+                t0 = sum(F0)
+                if not close(sum(F1), Fraction(want)):
+                    fails.append(f"normalize_total: ND total after normalize is {float(sum(F1))}")
+                if not all(close(x / t0 * want, y) for x, y in zip(F0, F1)):
+                    fails.append("normalize_proportions: ND proportions changed")
+            elif op["op"] == "partial_normalize":
+                n, m = src["shape"]
+                ax = op["axis"] if isinstance(op["axis"], int) else int(op["axis"][2:])
+                # numpy sense: axis 0 -> every column sums to 1, axis 1 -> every row sums to 1
+                lines = [[i * m + j for i in range(n)] for j in range(m)] if ax == 0 else [[i * m + j for j in range(m)] for i in range(n)]
+                for line in lines:
+                    s0 = sum(F0[q] for q in line)
+                    if s0 == 0:
+                        if any(F1[q] != 0 for q in line):
+                            fails.append("partial_zero_line: an all-zero row / column was changed")
+                        continue
+                    if not close(sum(F1[q] for q in line), Fraction(1)):
+                        fails.append(f"partial_sum: a {'column' if ax == 0 else 'row'} sums to {float(sum(F1[q] for q in line))} after partial_normalize({op['axis']})")
+                        break
+                    if not all(close(F0[q] / s0, F1[q]) for q in line):
+                        fails.append("partial_proportions: proportions inside a row / column changed")
+                        break
+                    if not all(close(E0[q] / (s0 * s0), E1[q]) for q in line):
+                        fails.append("partial_err2: squared errors are not divided by the square of the row / column sum")
+                        break
+            if len(fails) > 5:
+                break
+        return fails[:6]
 
     @staticmethod
     def build(src):
@@ -114,6 +320,14 @@ class C06(Hist1Prop):
                 "src": src, "tolerance": tol}
 
     def shrink_candidates(self, case):
+        if case.get("sub"):
+            ops = case["ops"]
+            first = case.get("m", 1) + 1
+            for k in range(len(ops) - 1, first - 1, -1):
+                c = copy.deepcopy(case)
+                del c["ops"][k]
+                yield c
+            return
         src = case["src"]
         for i in range(len(src["steps"]) - 1, -1, -1):
             s2 = copy.deepcopy(src)
@@ -121,6 +335,10 @@ class C06(Hist1Prop):
             yield self.build(s2)
 
     def oracle(self, case, io):
+        if case.get("sub") == "collection":
+            return self.oracle_collection(case, io)
+        if case.get("sub") == "nd":
+            return self.oracle_nd(case, io)
         outs, ops = io["outs"], case["ops"]
         fails = []
         exact = case["src"]["exact"]
@@ -221,6 +439,8 @@ class C06(Hist1Prop):
         return fails[:6]
 
     def nontrivial(self, case, io):
+        if case.get("sub"):
+            return any(Fraction(x) != 0 for x in io["outs"][0]["regs"][0]["freq"])
         try:
             return any(Fraction(x) != 0 for x in io["outs"][0]["regs"][0]["freq"]) and any(s.get("c") not in ("1", None) for s in case["src"]["steps"])
         except Exception:
